@@ -702,7 +702,9 @@ func vfSynthExpected(r *verifkit.Rand, i int) *conformancev1.TestCase {
 	e := &vfRes{ResponseHeaders: hdr("Hdr"), ResponseTrailers: hdr("Trl")}
 	if r.Chance(1, 4) && len(e.ResponseHeaders) > 0 {
 		// same name in headers and trailers
-		e.ResponseTrailers = append(e.ResponseTrailers, &conformancev1.Header{Name: strings.ToLower(e.ResponseHeaders[0].Name), Value: []string{"trailer-side"}})
+		nm := e.ResponseHeaders[0].Name
+		nm = verifkit.Pick(r, []string{nm, strings.ToLower(nm), strings.ToUpper(nm), vfFlipCase(nm)})
+		e.ResponseTrailers = append(e.ResponseTrailers, &conformancev1.Header{Name: nm, Value: []string{"trailer-side"}})
 	}
 	nPay := r.Intn(4)
 	if st == 1 || st == 2 {
